@@ -443,22 +443,25 @@ MatchLaws ==
         /\ SandwichLaw(v, R1)
 
 \* how the allowed sets grow when one cell is appended (the inductive
-\* reading of the linear scan)
+\* reading of the linear scan).  Stated on the vector and the vector it was
+\* appended to -- its prefix -- so that it is a state invariant; a sorted
+\* vector has a sorted prefix, hence the prefix shares the flag.
 AppendLaw ==
-  [][ \A v \in LookSet :
-        LET n  == Len(a')
-            c  == a'[n]
-            R0 == MA(v, 0)     R0n == MatchRel(v, a', 0, FALSE)
-            R1 == MA(v, 1)     R1n == MatchRel(v, a', 1, asc')
-        IN  /\ (R0 \notin Special /\ R0n \notin Special) =>
-                 R0n = IF R0 # {NA} THEN R0
-                       ELSE IF Eq0(v, c) THEN {n} ELSE {NA}
-            /\ (R1 \notin Special /\ R1n \notin Special) =>
-                 R1n = IF Tag(c) = Tag(v) /\ Leq(c, v)
-                       THEN IF R1 # {NA} /\ \A p \in R1 : SameValue(a[p], c)
-                            THEN R1 \cup {n} ELSE {n}
-                       ELSE R1
-    ]_vars
+  Len(a) > 0 =>
+    LET n    == Len(a)
+        c    == a[n]
+        prev == SubSeq(a, 1, n - 1)
+    IN  \A v \in LookSet :
+          LET R0  == MatchRel(v, prev, 0, FALSE)    R0n == MA(v, 0)
+              R1  == MatchRel(v, prev, 1, asc)      R1n == MA(v, 1)
+          IN  /\ (R0 \notin Special /\ R0n \notin Special) =>
+                   R0n = IF R0 # {NA} THEN R0
+                         ELSE IF Eq0(v, c) THEN {n} ELSE {NA}
+              /\ (R1 \notin Special /\ R1n \notin Special) =>
+                   R1n = IF Tag(c) = Tag(v) /\ Leq(c, v)
+                         THEN IF R1 # {NA} /\ \A p \in R1 : SameValue(a[p], c)
+                              THEN R1 \cup {n} ELSE {n}
+                         ELSE R1
 
 \* tables: VLOOKUP on a table is HLOOKUP on its transpose; LOOKUP's array
 \* form is the approximate V/HLOOKUP into the last column/row; V/HLOOKUP and
